@@ -1,2 +1,2 @@
 """Rule modules; importing this package registers every rule."""
-from . import ash_frame, ash_link, ezsp_proto, schema_use, status, watchdog, multicast, config, app_rx, app_tx, events, failure, bringup, thread  # noqa: F401
+from . import ash_frame, ash_link, ezsp_proto, schema_use, status, watchdog, multicast, config, app_rx, app_tx, events, failure, bringup, thread, netinfo  # noqa: F401
